@@ -121,7 +121,7 @@ def call(net, o, init_override=None):
         if c == "runpp":
             init = init_override or o["init"]
             kw = dict(algorithm=o["algorithm"], calculate_voltage_angles=o["angles"], numba=o["numba"], init=init,
-                      tolerance_mva=1e-9 / max(1.0, net.sn_mva / 100.0),
+                      tolerance_mva=1e-9 / float(net.sn_mva),
                       max_iteration={"nr": 30, "iwamoto_nr": 30, "gs": 10000}[o["algorithm"]])
             if o["algorithm"] == "nr":
                 kw["lightsim2grid"] = o["lightsim2grid"]
